@@ -103,10 +103,18 @@ def run(rep):
     from harness.props import _typecell
 
     _typecell.part(rep, PROP)
+    # malformed ${references}: RefSyntax.tla's piece sequences in a text cell and in an expression cell
+    from harness.props import _refsyntax
+
+    _refsyntax.part(rep, PROP)
 
 
 def replay(rep, case):
     c = case["case"]
+    if c.get("refsyntax"):
+        from harness.props import _refsyntax
+
+        return _refsyntax.replay(rep, PROP, c)
     if c.get("typecell"):
         from harness.props import _typecell
 
